@@ -47,6 +47,10 @@ pub fn check(ctx: &Ctx, t: &mut Tape<'_>, r: &mut Report) -> CheckResult {
     let cuts = gen_cuts(t, len, bs, 5);
     let kinds = gen_apply_kinds(t, 5);
     let pre = gen_prefill_kind(t);
+    // every constructor path of the wrapper and of the core must derive the same s_0 = E_K(IV)
+    let how = ctor_pick(t);
+    let how2 = Ctor::ALL[(t.idx(4) + 1) % 4];
+    r.label_if(how != Ctor::New || how2 != Ctor::New, "slice-or-inner-constructor");
     let ty = f.type_name();
     let model = KsModel::new(c.as_ref(), StreamKind::Belt, &iv);
     let nblocks = (off + len).div_ceil(bs) as u128;
@@ -60,12 +64,12 @@ pub fn check(ctx: &Ctx, t: &mut Tape<'_>, r: &mut Report) -> CheckResult {
     r.label_if(blk >= 1 << 64, "index>=2^64");
     r.label_if(!suite.info.is_toy, "real-cipher");
     r.d(|| format!("{ty} key={} iv={} (s0={:#x}) start=(block {blk}, offset {off}) via {reach:?} len={len} cuts={} data={}", tape::hex_short(&key), tape::hex_short(&iv), model.s0, describe_cuts(&cuts), tape::hex_short(&data)));
-    let mut s = position_stream(f, &model, &key, &iv, p, bs, reach, "C06")?;
+    let mut s = position_stream(f, &model, &key, &iv, p, bs, reach, how, "C06")?;
     let out = run_stream(s.as_mut(), &data, &cuts, &kinds, pre).map_err(|v| with_sig("C06", &ty, v))?;
     let want = model.apply_at(blk, off, &data);
     ensure_eq_bytes!(out, want, format!("C06/output/{ty}"), "{len} bytes from block {blk} offset {off}, s0={:#x}", model.s0);
     // encryption and decryption are the same operation
-    let mut s2 = position_stream(f, &model, &key, &iv, p, bs, Reach::SetBlockPos, "C06")?;
+    let mut s2 = position_stream(f, &model, &key, &iv, p, bs, Reach::SetBlockPos, how2, "C06")?;
     let mut back = vec![0u8; len];
     ensure!(s2.try_apply(ApplyKind::Inout, &out, &mut back).is_ok(), format!("C06/apply-rejected/{ty}"), "second pass failed");
     ensure_eq_bytes!(back, data, format!("C06/involution/{ty}"), "applying the keystream twice");
